@@ -3,7 +3,7 @@ from __future__ import annotations
 
 from .. import scaffolds as S
 from ..engine_ch import Free, Harness
-from ..mdutil import exc_record, get_md, stream_view, urlish
+from ..mdutil import deep_equal, exc_record, get_md, stream_view, urlish
 from ..sym import no_tracing, realize
 
 EXPLANATION = (
@@ -160,7 +160,7 @@ def _form_run(params, values):
     recs = []
     ci = _strip_pos(stream_view(ti[1].children or []))
     cr = _strip_pos(stream_view(tr[1].children or []))
-    if ci != cr:
+    if not deep_equal(ci, cr):
         recs.append({"key": "reference-form-differs-from-inline-form", "image": params["image"]})
     if hi != hr:
         recs.append({"key": "reference-form-renders-differently", "image": params["image"]})
